@@ -7,6 +7,9 @@ compared with the closure model of vf/ref/c17_closure.py (written from the state
 resolution = the page-store title rules, not the code).  Accepted: two_phase <= marked <= full (the
 two readings of "plus redirects from or to a marked template"); on the unchanged tree marked ==
 two_phase is what the code computes, any result strictly in between is only counted.
+Histories: "readd" rounds store the same titles again and re-analyse; "grow" rounds ADD new templates to
+the long-lived store and re-analyse, the model being the closure of the current (union) store seeded
+additionally with what was marked before (monotone marks); pages may be stored pre-marked.
 Termination: every analysis runs under a CPU budget.
 
 Signature = rule / why-the-model-marks-the-page [/ the feature whose removal makes the
@@ -34,11 +37,17 @@ RULE = ("libraries of 1-8 Template pages: EXHAUSTIVE for <=3 pages (every adjace
         "flag sets one/end/two/none/all/random; redirects to page/self/absent/chains, redirect pages that the classifier "
         "also classifies; used names canonical or spelled lower-initial / Template: / template: / T: / underscore and "
         "combinations; non-resolving decoy names; titles with blanks, unicode, stored lower-case initial + upper-case "
-        "twin, quotes, %, inner colon; 20% re-add + re-analyse rounds in the same context). "
-        "distinct = library (titles, redirects, used names as written, flags, insertion order, earlier rounds); "
+        "twin, quotes, %, inner colon; 15% re-add + re-analyse rounds in the same context; 30% GROWING stores: one library "
+        "dealt out over 2-4 rounds, each round adds new templates -- new includers of already marked and of unmarked "
+        "templates, new flagged templates, new redirects, names that resolve only once a later round added the page -- and "
+        "analyses the long-lived store again; 30% of the cases store some pages with need_pre_expand=True up front). "
+        "distinct = history (per round: titles, redirects, used names as written, flags, pre-marks, insertion order); "
         "non-trivial = the model marks at least one page that the classifier did not flag")
 ASSUMPTIONS = [
-    "the classifier is a pure table lookup on page.title (no dependence on page bodies); every page starts with need_pre_expand=False",
+    "the classifier is a pure table lookup on page.title (no dependence on page bodies), the same table in every round of a history",
+    "stores with a history: marks are monotone; lower bound = every derivation from a flagged template in the CURRENT store plus what "
+    "was marked before the analysis (earlier analysis / add_page(need_pre_expand=True)); upper bound = joint least fixpoint seeded "
+    "with flagged + already marked; includers of a pre-marked template that the classifier does not flag are allowed, not required",
     "redirect targets are written as canonical stored titles of the Template namespace (as a dump's <redirect title=> is); "
     "redirect targets spelled differently are not generated",
     "two readings of the redirect clause are both accepted: one-hop after the inclusion fixpoint (lower bound) and the joint least "
@@ -69,6 +78,10 @@ def floors(tier):
         "counters.model.redirect-target-marked": 500, "counters.model.readings-differ": 100,
         "counters.edge.noncanonical": 2000, "counters.rounds.later": 500, "counters.n.8": 100,
         "counters.flagged-redirect-page": 200,
+        "counters.history.grow-round": 3000, "counters.history.store-with-premarked-page": 1500,
+        "counters.history.flagged-template-already-marked": 2000,
+        "counters.history.new-derivation-only-through-already-marked-flagged": 600,
+        "counters.history.new-derivation-only-through-already-marked-unflagged": 200,
         "anchors.Wtp.analyze_templates": 20000 if tier == "quick" else 500000,
         "anchors.Wtp.set_template_pre_expand": 20000, "anchors.Wtp.get_page": 10000,
         "counters.sql.redirect-source-update": 20000, "counters.sql.redirect-target-update": 20000,
@@ -99,21 +112,27 @@ def _classifier(table, calls):
     return check
 
 
-def run_rounds(rounds, sql=None):
-    """Store + analyse every round in ONE fresh context; -> list of marked-title sets (one per round).
-    Raises CpuBudget / any exception of the code under test (tagged with .round)."""
+def run_rounds(case, sql=None):
+    """Store + analyse every round in ONE fresh context; -> list of (marked-title set, classifier calls), one
+    per round.  mode "readd": every round stores its pages (again); mode "grow": every round adds its (new)
+    pages and the classifier table is the union.  Raises CpuBudget / any exception of the code under test
+    (tagged with .round)."""
     from vf.core.wtp import fresh
     out = []
+    grow = case.get("mode") == "grow"
     with fresh(title=None) as ctx:
         if sql is not None:
             ctx.db_conn.set_trace_callback(sql)
-        for k, g in enumerate(rounds):
-            table = {}
+        table = {}
+        for k, g in enumerate(case["rounds"]):
+            if not grow:
+                table = {}
             for p in g["pages"]:
+                pre = bool(p.get("p"))
                 if p["r"] is not None:
-                    ctx.add_page(p["t"], 10, None, redirect_to=p["r"], need_pre_expand=False, model="wikitext")
+                    ctx.add_page(p["t"], 10, None, redirect_to=p["r"], need_pre_expand=pre, model="wikitext")
                 else:
-                    ctx.add_page(p["t"], 10, "body of " + p["t"], need_pre_expand=False, model="wikitext")
+                    ctx.add_page(p["t"], 10, "body of " + p["t"], need_pre_expand=pre, model="wikitext")
                 table[p["t"]] = p
             calls = []
             try:
@@ -129,15 +148,26 @@ def run_rounds(rounds, sql=None):
     return out
 
 
-def judge(graph, got):
+def before_of(case, k, res):
+    """Titles already marked in the store when round k is analysed (besides the pages stored pre-marked)."""
+    return res[k - 1][0] if (k > 0 and case.get("mode") == "grow") else set()
+
+
+ALREADY = ("includer-of-flagged-template-that-was-already-marked",
+           "includer-of-unflagged-template-that-was-already-marked")
+ORDER = ["already-marked-before-analysis", "flagged-template", "includer-of-marked", "redirect-source", "redirect-target"]
+
+
+def judge(graph, got, before=()):
     """-> (model, [(rule, category, detail)]) for one analysed library."""
-    m = M.closure(graph)
+    m = M.closure(graph, before)
     probs = []
     missed = m["two_phase"] - got
     over = got - m["full"]
     if missed:
-        order = ["flagged-template", "includer-of-marked", "redirect-source", "redirect-target"]
-        cat = min((m["why"][t] for t in missed), key=order.index)
+        cat = min((m["why"][t] for t in missed), key=ORDER.index)
+        if cat == "includer-of-marked":
+            cat = M.refine_missed(m, got) or cat
         probs.append(("missed", cat, "not marked: %s (model: %s)" % (
             sorted(missed), {t: m["why"][t] for t in sorted(missed)})))
     if over:
@@ -151,16 +181,16 @@ def outcome(case):
     """Run a case on the real code and judge its LAST round.  -> list of (rule, category, detail)."""
     rounds = case["rounds"]
     try:
-        res = run_rounds(rounds)
+        res = run_rounds(case)
     except CpuBudget as e:
-        m = M.closure(rounds[e.round])
+        m = M.closure(M.graph_at(case, e.round))
         return [("does-not-return", "cyclic-inclusion" if M.cyclic(m["inc"]) else "acyclic-inclusion",
                  "analyze_templates used more than %.0f s CPU" % BUDGET)] if e.round == len(rounds) - 1 else \
                [("does-not-return", "earlier-round", "")]
     except Exception as e:
         return [("raises", exc_sig(e), repr(e)[:300])]
-    got, _calls = res[-1]
-    return judge(rounds[-1], got)[1]
+    k = len(rounds) - 1
+    return judge(M.graph_at(case, k), res[k][0], before_of(case, k, res))[1]
 
 
 def find(probs, rule):
@@ -174,54 +204,65 @@ def broken(probs):
     return any(r in ("does-not-return", "raises") for r, _, _ in probs)
 
 
-def drop_redirects(graph):
-    return {"pages": [{"t": p["t"], "r": None, "u": list(p["u"]), "f": p["f"]} for p in graph["pages"]]}
+def with_rounds(case, rounds):
+    c = {"rounds": rounds}
+    if "mode" in case:
+        c["mode"] = case["mode"]
+    return c
+
+
+def drop_redirects(case):
+    return with_rounds(case, [{"pages": [dict(p, r=None) for p in r["pages"]]} for r in case["rounds"]])
+
+
+def collapse(case):
+    """The store of the last round, filled and analysed once."""
+    return {"rounds": [M.graph_at(case, len(case["rounds"]) - 1)]}
 
 
 def diagnose(case, probs):
     """Name the mechanism of each problem of `case` by dropping features until it disappears:
-    earlier rounds -> non-canonical spellings -> redirect pages.  A feature whose removal makes the
-    disagreement vanish is the mechanism tag; otherwise the simpler case replaces the witness and the
-    category (why the model marks the missed page) is taken from the simplest failing version, so that
-    a propagation failure that merely *shows* in the redirect phase is named by its root.
+    redirect pages -> history (earlier analyses) -> non-canonical spellings.  A feature whose removal makes
+    the disagreement vanish is the mechanism tag (redirects: the category already says so); otherwise the
+    simpler case replaces the witness and the category (why the model marks the missed page) is taken from
+    the simplest failing version, so that a propagation failure that merely *shows* in the redirect phase is
+    named by its root.  Categories that already name a history mechanism (ALREADY) end the search.
     -> list of (sig, msg, witness case)."""
     out = []
-    rounds = case["rounds"]
     for rule, cat, detail in probs:
         if rule in ("does-not-return", "raises"):
             out.append(("%s/%s" % (rule, cat), detail, case))
             continue
-        wit, last = case, rounds[-1]
+        wit = case
         tag = None
-        if len(rounds) > 1:
-            single = {"rounds": [last]}
-            o = outcome(single)
+        if any(p["r"] is not None for r in wit["rounds"] for p in r["pages"]):
+            c = drop_redirects(wit)
+            o = outcome(c)
+            if not broken(o):
+                f = find(o, rule)
+                if f is not None:
+                    wit, (cat, detail) = c, f
+        if cat not in ALREADY and len(wit["rounds"]) > 1:
+            c = collapse(wit)
+            o = outcome(c)
             if not broken(o):
                 f = find(o, rule)
                 if f is None:
                     tag = "only-after-an-earlier-analysis-in-the-same-context"
                 else:
-                    wit, (cat, detail) = single, f
-        canon = M.canonicalise(last)
-        if tag is None and canon != last:
-            c2 = {"rounds": [canon]}
-            o = outcome(c2)
-            if not broken(o):
-                f = find(o, rule)
-                if f is None:
-                    tag = "used-name-not-canonical-title"
-                else:
-                    wit, last, (cat, detail) = c2, canon, f
-        if tag is None and len(wit["rounds"]) == 1 and any(p["r"] is not None for p in last["pages"]):
-            c3 = {"rounds": [drop_redirects(last)]}
-            o = outcome(c3)
-            if not broken(o):
-                f = find(o, rule)
-                if f is not None:
-                    wit, (cat, detail) = c3, f
+                    wit, (cat, detail) = c, f
+        if tag is None and cat not in ALREADY:
+            c = M.canonicalise_case(wit)
+            if c != wit:
+                o = outcome(c)
+                if not broken(o):
+                    f = find(o, rule)
+                    if f is None:
+                        tag = "used-name-not-canonical-title"
+                    else:
+                        wit, (cat, detail) = c, f
         out.append(("%s/%s" % (rule, tag or cat), detail, wit))
     return out
-
 
 
 def sigs_of(case):
@@ -234,22 +275,27 @@ def _simpler(cur):
     cp = lambda: json.loads(json.dumps(cur))
     rounds = cur["rounds"]
     for i in range(len(rounds) - 1):
-        yield {"rounds": rounds[:i] + rounds[i + 1:]}
-    titles = [p["t"] for p in rounds[-1]["pages"]]
+        yield with_rounds(cur, rounds[:i] + rounds[i + 1:])
+    if cur.get("mode") == "grow":
+        for i in range(len(rounds) - 1):        # merge two consecutive rounds (one analysis fewer)
+            yield with_rounds(cur, rounds[:i] + [{"pages": rounds[i]["pages"] + rounds[i + 1]["pages"]}] + rounds[i + 2:])
+    titles = []
+    for r in rounds:
+        for p in r["pages"]:
+            if p["t"] not in titles:
+                titles.append(p["t"])
     if len(titles) > 1:
         for t in titles:
-            yield {"rounds": [{"pages": [p for p in r["pages"] if p["t"] != t]} for r in rounds]}
+            yield with_rounds(cur, [{"pages": [p for p in r["pages"] if p["t"] != t]} for r in rounds])
+    union = set(titles)
     for ri, r in enumerate(rounds):
-        tset = {p["t"] for p in r["pages"]}
+        tset = union if cur.get("mode") == "grow" else {p["t"] for p in r["pages"]}
         for pi, p in enumerate(r["pages"]):
-            if p["r"] is not None:
-                c = cp()
-                c["rounds"][ri]["pages"][pi]["r"] = None
-                yield c
-            if p["f"]:
-                c = cp()
-                c["rounds"][ri]["pages"][pi]["f"] = 0
-                yield c
+            for key, val in (("r", None), ("f", 0), ("p", 0)):
+                if p.get(key):
+                    c = cp()
+                    c["rounds"][ri]["pages"][pi][key] = val
+                    yield c
             for ui, w in enumerate(p["u"]):
                 c = cp()
                 del c["rounds"][ri]["pages"][pi]["u"][ui]
@@ -346,13 +392,13 @@ class Shard:
             obs.count("rounds.later")
 
     def run_case(self, case, gen, feats=()):
-        """One generated case = one context; every round is analysed and judged."""
+        """One generated case = one context; every round is analysed and judged (until one fails)."""
         obs = self.obs
         rounds = case["rounds"]
         for f in feats:
             obs.add("features", f)
         try:
-            res = run_rounds(rounds, sql=self._sql)
+            res = run_rounds(case, sql=self._sql)
             err = None
         except CpuBudget as e:
             err, res = e, None
@@ -360,11 +406,12 @@ class Shard:
             err, res = e, None
         if err is not None:
             k = getattr(err, "round", len(rounds) - 1)
-            sub = {"rounds": rounds[:k + 1]}
+            sub = with_rounds(case, rounds[:k + 1])
             obs.case(sub, nontrivial=True, sample=None)
             obs.count(gen + ".graphs")
-            m = M.closure(rounds[k])
-            self.observe(rounds[k], m, k > 0)
+            g = M.graph_at(case, k)
+            m = M.closure(g)
+            self.observe(g, m, k > 0)
             if isinstance(err, CpuBudget):
                 obs.check("terminates")
                 self.overruns += 1
@@ -376,17 +423,32 @@ class Shard:
             else:
                 obs.violation("raises/" + exc_sig(err), repr(err)[:300], sub)
             return
-        for k, g in enumerate(rounds):
+        grow = case.get("mode") == "grow"
+        for k in range(len(rounds)):
             got, calls = res[k]
-            sub = {"rounds": rounds[:k + 1]}
-            m, probs = judge(g, got)
+            sub = with_rounds(case, rounds[:k + 1])
+            g = M.graph_at(case, k)
+            m, probs = judge(g, got, before_of(case, k, res))
             obs.check("terminates")
             obs.check("closure-sandwich")
-            nontriv = bool(m["two_phase"] - m["flagged"])
+            nontriv = bool(m["derived"] - m["flagged"])
             obs.case(sub, nontrivial=nontriv,
                      sample={"gen": gen, "case": sub, "marked": sorted(got)} if nontriv and len(g["pages"]) >= 4 else None)
             obs.count(gen + ".graphs")
             self.observe(g, m, k > 0)
+            if grow and k > 0:
+                obs.count("history.grow-round")
+                obs.maxi("grow_rounds", k + 1)
+            if m["premarked"]:
+                obs.count("history.store-with-premarked-page")
+            if m["before"]:
+                obs.count("history.analysis-of-partly-marked-store")
+                if m["before"] & m["flagged"]:
+                    obs.count("history.flagged-template-already-marked")
+                for kind in M.history_triggers(m):
+                    obs.count("history.new-derivation-only-through-already-marked-" + kind)
+                if m["derived"] - m["before"]:
+                    obs.count("history.model-marks-more-than-before")
             obs.count("classifier.calls", len(calls))
             if sorted(calls) != sorted(m["titles"]):
                 obs.count("classifier.not-once-per-template")
@@ -405,11 +467,12 @@ class Shard:
                     self.minimised[sig] = self.minimised.get(sig, 0) + 1
                     wit = minimise(wit, sig)
                     try:
-                        m2, p2 = judge(wit["rounds"][-1], run_rounds(wit["rounds"])[-1][0])
+                        p2 = outcome(wit)
                         msg = "; ".join(d for _, _, d in p2) or msg
                     except (Exception, CpuBudget):
                         pass
                 obs.violation(sig, msg, wit)
+            break       # later rounds of a store that already disagrees are not judged
 
 
 def run_shard(spec):
@@ -444,12 +507,16 @@ def run_shard(spec):
 def replay(case):
     probs = outcome(case)
     d = diagnose(case, probs) if probs else []
-    g = case["rounds"][-1]
-    m = M.closure(g)
+    k = len(case["rounds"]) - 1
+    g = M.graph_at(case, k)
     try:
-        got = sorted(run_rounds(case["rounds"])[-1][0])
+        res = run_rounds(case)
+        got = sorted(res[k][0])
+        m = M.closure(g, before_of(case, k, res))
     except BaseException as e:
         got = "no result: " + type(e).__name__
+        m = M.closure(g)
     return {"violations": [(s, msg) for s, msg, _ in d], "marked": got,
-            "model_one_hop": sorted(m["two_phase"]), "model_joint_fixpoint": sorted(m["full"]),
+            "marked_before_this_analysis": sorted(m["before"]),
+            "model_lower_bound": sorted(m["two_phase"]), "model_upper_bound": sorted(m["full"]),
             "why": {t: m["why"][t] for t in sorted(m["why"])}}
